@@ -103,6 +103,9 @@ class FileHeaderRule(BaseLintRule):  # thailint: ignore[srp]
         if self._has_file_ignore(context):
             return []
 
+        if not self._is_enabled(context):
+            return []
+
         config = self._load_config(context)
 
         if self._should_ignore_file(context, config):
@@ -186,6 +189,14 @@ class FileHeaderRule(BaseLintRule):  # thailint: ignore[srp]
         """Check if line contains ignore directive."""
         line_lower = line.lower()
         return "# thailint-ignore-file:" in line_lower or "# thailint-ignore" in line_lower
+
+    def _is_enabled(self, context: BaseLintContext) -> bool:
+        """Check the documented `enabled` switch of the file-header section."""
+        metadata = getattr(context, "metadata", None)
+        section = metadata.get("file_header") if isinstance(metadata, dict) else None
+        if isinstance(section, dict):
+            return bool(section.get("enabled", True))
+        return True
 
     def _load_config(self, context: BaseLintContext) -> FileHeaderConfig:
         """Load configuration from context."""
